@@ -189,6 +189,9 @@ pub struct Alphabet {
     pub ccs: Vec<(u8, u8)>,
     pub bends: Vec<u16>,
     pub foreign: bool,
+    /// an extra note number that may be pressed only as the oldest entry (empty list) or when the list is within two of the bound:
+    /// reaches the documented capacity with distinct note numbers at both ends without enumerating 2^32 lists
+    pub edge_note: Option<u8>,
 }
 
 pub struct MidiM {
@@ -223,6 +226,14 @@ impl Machine for MidiM {
                     out.push(MOp::On(*n, *v));
                 }
             }
+            if let Some(e) = a.edge_note {
+                if self.m.held.is_empty() || self.m.held.len() + 2 >= a.k {
+                    out.push(MOp::On(e, a.vels[0]));
+                }
+            }
+        }
+        if let Some(e) = a.edge_note {
+            out.push(MOp::Off(e));
         }
         for n in &a.notes {
             out.push(MOp::Off(*n));
@@ -448,12 +459,12 @@ pub fn replay(config: &Value, ops: &[String]) -> Vec<String> {
     if ops.iter().any(|o| o.starts_with("byte:")) {
         return replay_bytes(ch, ops);
     }
-    let mut m = MidiM::new(ch, Alphabet { notes: vec![], vels: vec![], k: 32, modes: true, polls: true, ccs: vec![], bends: vec![], foreign: true });
+    let mut m = MidiM::new(ch, Alphabet { notes: vec![], vels: vec![], k: 32, modes: true, polls: true, ccs: vec![], bends: vec![], foreign: true, edge_note: None });
     run_script(&mut m, ops, &parse_op, &|m: &MidiM| obs_str(&m.rx))
 }
 
 fn main_alphabet(k: usize) -> Alphabet {
-    Alphabet { notes: vec![5, 64, 127], vels: vec![1, 127], k, modes: true, polls: false, ccs: vec![], bends: vec![], foreign: true }
+    Alphabet { notes: vec![5, 64, 127], vels: vec![1, 127], k, modes: true, polls: false, ccs: vec![], bends: vec![], foreign: true, edge_note: None }
 }
 
 fn run_m(ctx: &Ctx, rep: &mut Report, ch: u8, a: Alphabet, label: &str, props: &[&'static str]) -> ExploreResult {
@@ -475,12 +486,15 @@ pub fn c04(ctx: &Ctx) -> Report {
         run_m(ctx, &mut rep, 3, Alphabet { notes: vec![0, 5, 64, 127], vels: vec![100], ..main_alphabet(4) }, "4 notes, K=4", p);
         run_m(ctx, &mut rep, 7, Alphabet { notes: vec![60, 61], vels: vec![64], ..main_alphabet(10) }, "2 notes, K=10", p);
         run_m(ctx, &mut rep, 15, Alphabet { notes: vec![60], vels: vec![1, 127], ..main_alphabet(32) }, "1 note up to the documented capacity, K=32", p);
+        run_m(ctx, &mut rep, 4, Alphabet { notes: vec![60], vels: vec![100], edge_note: Some(40), ..main_alphabet(32) }, "capacity K=32 with a lower note as oldest / newest entry", p);
+        run_m(ctx, &mut rep, 4, Alphabet { notes: vec![60], vels: vec![100], edge_note: Some(90), ..main_alphabet(32) }, "capacity K=32 with a higher note as oldest / newest entry", p);
         for ch in 0..16u8 {
             run_m(ctx, &mut rep, ch, main_alphabet(2), &format!("channel {}, K=2", ch), p);
         }
     } else {
-        run_m(ctx, &mut rep, 0, main_alphabet(4), "notes {5,64,127} x velocities {1,127}, K=4", p);
+        run_m(ctx, &mut rep, 0, main_alphabet(5), "notes {5,64,127} x velocities {1,127}, K=5", p);
         run_m(ctx, &mut rep, 15, Alphabet { notes: vec![60], vels: vec![1, 127], ..main_alphabet(32) }, "1 note up to the documented capacity, K=32", p);
+        run_m(ctx, &mut rep, 4, Alphabet { notes: vec![60], vels: vec![100], edge_note: Some(40), ..main_alphabet(32) }, "capacity K=32 with a lower note as oldest / newest entry", p);
         for ch in [0u8, 9, 15] {
             run_m(ctx, &mut rep, ch, main_alphabet(2), &format!("channel {}, K=2", ch), p);
         }
@@ -512,6 +526,7 @@ pub fn c05(ctx: &Ctx) -> Report {
     } else {
         run_m(ctx, &mut rep, 0, polls(3), "notes {5,64,127} x velocities {1,127}, K=3, with polls", p);
         run_m(ctx, &mut rep, 15, Alphabet { notes: vec![60], vels: vec![100], ..polls(8) }, "1 note, K=8, with polls", p);
+        run_m(ctx, &mut rep, 4, Alphabet { notes: vec![60], vels: vec![100], edge_note: Some(40), modes: false, ..polls(32) }, "capacity K=32 with a second note as oldest / newest entry, with polls", p);
     }
     rep.nontrivial = rep.counters.get("rising_polls_expected_true").copied().unwrap_or(0) + rep.counters.get("falling_polls_expected_true").copied().unwrap_or(0);
     for k in ["rising_polls_expected_true", "falling_polls_expected_true", "gate_dropped_by_all_notes_off", "gate_dropped_by_note_off", "note_off_with_gate_low", "all_notes_off_with_pending_falling_edge"] {
@@ -815,7 +830,7 @@ pub fn c06(ctx: &Ctx) -> Report {
             alpha.extend([0xF8u8, 0xFE, 0xFF]);
         }
         let m = FrameM { t: Twin::new(ch), alphabet: std::sync::Arc::new(alpha.clone()), max_held: if thorough { 2 } else { 1 } };
-        let r = explore(m, &ExploreCfg { max_depth: None, state_cap: 60_000_000, threads: ctx.threads, label: format!("single bytes, channel {}, alphabet of {} bytes", ch, alpha.len()) }, &mut rep, &["C06"]);
+        let r = explore(m, &ExploreCfg { max_depth: None, state_cap: 8_000_000, threads: ctx.threads, label: format!("single bytes, channel {}, alphabet of {} bytes", ch, alpha.len()) }, &mut rep, &["C06"]);
         if !r.fixpoint && !r.cap_hit {
             rep.machinery("byte-level exploration ended without a fixpoint".into());
         }
@@ -1006,7 +1021,7 @@ pub fn c18(ctx: &Ctx) -> Report {
     ccs.push((121, 127));
     ccs.push((2, 77));
     ccs.push((120, 0));
-    let a = Alphabet { notes: vec![60], vels: vec![100], k: 1, modes: false, polls: false, ccs, bends: if ctx.tier.is_thorough() { vec![0, 8191, 8192, 16383] } else { vec![0, 8192, 16383] }, foreign: true };
+    let a = Alphabet { notes: vec![60], vels: vec![100], k: 1, modes: false, polls: false, ccs, bends: if ctx.tier.is_thorough() { vec![0, 8191, 8192, 16383] } else { vec![0, 8192, 16383] }, foreign: true, edge_note: None };
     // fewer controllers in the quick tier keeps the product space small
     let a = if ctx.tier.is_thorough() { a } else { Alphabet { ccs: a.ccs.into_iter().filter(|(c, _)| matches!(c, 1 | 74 | 65 | 64 | 121 | 2 | 5)).collect(), ..a } };
     run_m(ctx, &mut rep, 2, a, "controller / pitch-bend / reset / note histories", &["C18"]);
